@@ -1304,6 +1304,10 @@ func (u *Unit) knownRefsOf(env *Env, t Term) {
 		u.assumeKnownRef(env, t)
 	case SSlice:
 		u.assumeKnownRef(env, sBase(t))
+	case SVal:
+		// an interface value that exists now cannot hold a pointer to something allocated later
+		_, un := u.boxFn(SRef)
+		u.assumeKnownRef(env, App(un, SRef, t))
 	}
 }
 
@@ -1625,6 +1629,10 @@ func (u *Unit) execRangeMap(st *ast.RangeStmt, env *Env, label string, x Value, 
 	defer func() { u.mapIter = u.mapIter[:len(u.mapIter)-1] }()
 
 	env.alias["_i"] = IntLit(0)
+	// _m: the map being iterated (the value of the range expression, evaluated once)
+	env.alias["_m"] = x.Term
+	env.aliasTy["_m"] = x.Ty
+	u.runGhostKind(env, blk, "ghostbefore")
 	u.checkInvariants(env, blk, "inv-init", st.Pos(), lname)
 	li := u.scanLoop(st.Body)
 	li.modVars = append(li.modVars, u.ghostsSetIn(st)...)
